@@ -16,6 +16,9 @@ import signal
 import socket
 import struct
 
+import asyncio
+
+import dns.asyncquery
 import dns.btreezone
 import dns.exception
 import dns.flags
@@ -30,6 +33,7 @@ import dns.rrset
 import dns.serial
 import dns.transaction
 import dns.update
+import dns.tsigkeyring
 import dns.versioned
 import dns.xfr
 import dns.zone
@@ -53,6 +57,9 @@ RULE = (
     "model reads the same wire-order records with its own parser (c13.parse ties the two); a sample is also fed as "
     "hand-built messages and through dns.query._inbound_xfr with a scripted socket.  Surplus after the final SOA includes "
     "copies of earlier records of the message, new rdata for an (owner, type) seen earlier in it, and copies of the SOA. "
+    "Also: Inbound constructed by keywords / defaults / int or text rdtype, the asyncio twin dns.asyncquery._inbound_xfr, "
+    "a foreign BaseException raised inside process_message, feeding past the end, one ~1700-name transfer with a message "
+    "over 0x8000 octets, TTL 0 and 2^31-1, all six Serial relations.  "
     "A case is non-trivial if its key (stream, chunking, fault, target kind) is new"
 )
 TRUSTED_BASE = [
@@ -321,6 +328,42 @@ class FakeTCP:
         return out
 
 
+class FakeAsyncSock:
+    """scripted dns.asyncbackend socket: `type`, and sendto/recvfrom (datagram) or sendall/recv (stream)"""
+
+    def __init__(self, wires, udp):
+        self.type = socket.SOCK_DGRAM if udp else socket.SOCK_STREAM
+        self.wires = list(wires)
+        self.buf = b"".join(struct.pack("!H", len(x)) + x for x in wires)
+
+    async def sendto(self, what, destination, timeout):
+        return len(what)
+
+    async def recvfrom(self, size, timeout):
+        if not self.wires:
+            raise EOFError("EOF")
+        return self.wires.pop(0), ("192.0.2.53", 53)
+
+    async def sendall(self, what, timeout):
+        return None
+
+    async def recv(self, size, timeout):
+        out, self.buf = self.buf[:size], self.buf[size:]
+        return out
+
+
+class Boom(BaseException):
+    """a foreign exception raised in the middle of process_message by a hostile message object"""
+
+
+class BoomRRset:
+    """stands in for an rrset of the answer section; touching it raises"""
+
+    @property
+    def name(self):
+        raise Boom()
+
+
 class FakeUDP(socket.socket):
     """a real datagram socket object (dns.query tests isinstance/type) whose I/O is scripted"""
 
@@ -365,7 +408,18 @@ def run_impl(zone, w: World, case, msgs, wires):
     signal.signal(signal.SIGALRM, _alarm)
     signal.alarm(3)
     try:
-        if case.get("via") == "sock":
+        if case.get("via") == "async":
+            # the asyncio twin of the message loop, dns.asyncquery._inbound_xfr, over a scripted socket
+            trace = None
+            q, ser = dns.xfr.make_query(zone, serial=req["serial"])
+
+            async def go():
+                n = 0
+                async for _ in dns.asyncquery._inbound_xfr(zone, FakeAsyncSock(wires, req["udp"]), q, ser, None, None):
+                    n += 1
+                return n
+            done_at = asyncio.run(go()) - 1
+        elif case.get("via") == "sock":
             trace = None
             q, ser = dns.xfr.make_query(zone, serial=req["serial"])
             if req["udp"]:
@@ -383,11 +437,22 @@ def run_impl(zone, w: World, case, msgs, wires):
                     s.close()
         else:
             end = case.get("end", "eof")
-            with dns.xfr.Inbound(zone, rdtype, req["serial"], req["udp"]) as inb:
+            ctor = case.get("ctor", "pos")
+            if ctor == "kw":  # keywords, in another order
+                mk = lambda: dns.xfr.Inbound(is_udp=req["udp"], serial=req["serial"], rdtype=rdtype, txn_manager=zone)
+            elif ctor == "int":  # the type as a plain int
+                mk = lambda: dns.xfr.Inbound(zone, int(rdtype), req["serial"], req["udp"])
+            elif ctor == "str":  # the type as a mnemonic: not accepted
+                mk = lambda: dns.xfr.Inbound(zone, req["rdtype"], req["serial"], req["udp"])
+            elif ctor == "default" and rdtype == AXFR and req["serial"] is None and not req["udp"]:
+                mk = lambda: dns.xfr.Inbound(zone)  # every argument defaulted: an AXFR
+            else:
+                mk = lambda: dns.xfr.Inbound(zone, rdtype, req["serial"], req["udp"])
+            with mk() as inb:
                 it = iter(msgs)
                 done = False
                 i = 0
-                while not done:
+                while not done or end == "all":
                     try:
                         m = next(it)
                     except StopIteration:
@@ -396,14 +461,14 @@ def run_impl(zone, w: World, case, msgs, wires):
                             raise EOFError("EOF")  # as dns.query._inbound_xfr: reading the next message raises
                         if end == "exc":
                             raise CallerStop()  # the caller gives up with an exception of its own
-                        break  # "quiet": the caller simply stops feeding and leaves the block normally
+                        break  # "quiet" / "all": the caller stops feeding and leaves the block normally
                     try:
                         done = inb.process_message(m)
                     except BaseException:
                         trace.append("!")
                         raise
                     trace.append(state_str(inb))
-                    if done:
+                    if done and done_at is None:
                         done_at = i
                     i += 1
             if end != "eof":
@@ -491,6 +556,9 @@ def eval_xfr(ctx: Ctx, c: dict, collect=None):
     except Exception as e:  # the harness could not even express the case: not a finding, but must be visible
         ctx.count("gen.unbuildable:" + type(e).__name__)
         return
+    if c.get("boom"):
+        mi, ri = c["boom"]
+        msgs[mi].answer[ri] = BoomRRset()
     trace, res, done_at = run_impl(zone, w, c, msgs, wires)
     after = full_dump(zone, w.origin)
     keys_after = w.zone_keys(zone)
@@ -511,8 +579,10 @@ def eval_xfr(ctx: Ctx, c: dict, collect=None):
     # records in wire order, which it reads like dns.message.from_wire(xfr=True, one_rr_per_rrset=is_ixfr) (P=1/2)
     wirep = c.get("via", "direct") != "direct"
     pmode = 0 if not wirep else (2 if req["rdtype"] == "IXFR" else 1)
-    has_class = any(len(r) > 4 for md in c["msgs"] for g in md["an"] for r in g)
-    if wirep:
+    has_class = any(len(r) > 4 for md in c["msgs"] for g in md["an"] for r in g) or bool(c.get("boom"))
+    if c.get("boom"):
+        names_first = []
+    elif wirep:
         names_first = [w.enc_wire_msg(md, m) for md, m in zip(c["msgs"], msgs)]
         for j in sorted({0, len(msgs) - 1} if msgs and not has_class else ()):
             recs_j = ";".join(w.enc_rec(r) for g in c["msgs"][j]["an"] for r in g) or "-"
@@ -520,7 +590,7 @@ def eval_xfr(ctx: Ctx, c: dict, collect=None):
             ctx.corr(f"c13.parse one={1 if pmode == 2 else 0} N={w.enc_names()} R={recs_j}", parsed_j, c)
     else:
         names_first = [w.enc_msg(m) for m in msgs]  # interns names before the table is printed
-    op = (f"c13.run fix={fix} tr={0 if trace is None else 1} P={pmode} E={c.get('end', 'eof') if c.get('via') != 'sock' else 'eof'} o={'none' if c.get('no_origin') else enc_labels(w.eff.labels)} t={int(dns.rdatatype.from_text(req['rdtype']))} "
+    op = (f"c13.run fix={fix} tr={0 if trace is None else 1} P={pmode} E={c.get('end', 'eof') if c.get('via') not in ('sock', 'async') else 'eof'} o={'none' if c.get('no_origin') else enc_labels(w.eff.labels)} t={0 if c.get('ctor') == 'str' else int(dns.rdatatype.from_text(req['rdtype']))} "
           f"s={'none' if req['serial'] is None else req['serial']} u={1 if req['udp'] else 0} N=%s "
           f"Z={w.enc_keys(keys_before)} M={'|'.join(names_first) or '-'}")
     zs = "=" if keys_after == keys_before else w.enc_keys(keys_after)
@@ -534,7 +604,18 @@ def eval_xfr(ctx: Ctx, c: dict, collect=None):
         ctx.fail("C13/run/hang", what + "the transfer did not return within 3 s (writer admission blocked?)", rep)
     if res.startswith("err:Foreign"):
         ctx.count("foreign." + res)
-    if res == "left:0":
+    if c.get("end") == "all":
+        # the caller kept feeding after process_message had returned True: whatever that yields (True again for an
+        # empty message, FormError for one with answers), the transfer stays applied and nothing stays open
+        if after != records_dump(w, exp["target"]):
+            ctx.fail("C13/after-done/zone-differs", what + f"{res}: after feeding past the end the zone is not the target version", rep)
+        if locked:
+            ctx.fail("C13/exit/transaction-left-open", what + f"{res}: fed past the end and the zone's write transaction was left open", rep)
+        if exp.get("err") and res != "err:" + exp["err"]:
+            ctx.fail("C13/after-done/wrong-outcome", what + f"expected {exp['err']}, got {res}", rep)
+        if not exp.get("err") and res != "left:1":
+            ctx.fail("C13/after-done/wrong-outcome", what + f"expected completion, got {res}", rep)
+    elif res == "left:0":
         # the caller left the with-block (normally or by its own exception) before any process_message returned
         # True: nothing may have been applied
         if after != before:
@@ -571,6 +652,9 @@ def eval_xfr(ctx: Ctx, c: dict, collect=None):
             if trace is not None and done_at != len(msgs) - 1:
                 ctx.fail("C13/valid-stream/done-early/" + exp.get("shape", "?"),
                          what + f"process_message reported completion at message {done_at} of {len(msgs)}", rep)
+    elif cls == "boom":
+        if not res.startswith("err:"):
+            ctx.fail("C13/foreign-exception/swallowed", what + f"a BaseException raised inside process_message did not propagate ({res})", rep)
     elif cls == "must-raise":
         if res == "left:0" and not exp.get("err"):
             # a fault that only shows as "the stream ends before the transfer is done": the caller left the block
@@ -699,7 +783,8 @@ def eval_glue(ctx: Ctx, c: dict):
     signal.alarm(3)
     res = "ok"
     try:
-        dns.query.inbound_xfr("192.0.2.53", zone, query=q, udp_mode=dns.query.UDPMode(c["mode"]))
+        dns.query.inbound_xfr("192.0.2.53", zone, query=q,
+                              udp_mode=c["mode"] if c.get("mode_int") else dns.query.UDPMode(c["mode"]))
     except Hang:
         res = "hang"
     except BaseException as e:  # noqa: BLE001
@@ -731,6 +816,9 @@ def eval_glue(ctx: Ctx, c: dict):
             ctx.fail("C13/inbound_xfr/valid-raises/" + exp.get("what", "?"), what + f"raised {res}", rep)
         elif after != records_dump(w, exp["target"]):
             ctx.fail("C13/inbound_xfr/zone-differs/" + exp.get("what", "?"), what + "zone differs from the target version", rep)
+        if exp.get("udp_used") is not None and (used["udp"] > 0) != exp["udp_used"]:
+            ctx.fail("C13/inbound_xfr/udp-attempt/" + exp.get("what", "?"),
+                     what + f"UDP attempts={used['udp']} (udp_mode={c['mode']!r} as {'int' if c.get('mode_int') else 'enum'}), expected none", rep)
         if exp.get("tcp_used") is not None and (used["tcp"] > 0) != exp["tcp_used"]:
             ctx.fail("C13/inbound_xfr/retry/" + exp.get("what", "?"),
                      what + f"TCP attempts={used['tcp']} UDP attempts={used['udp']}, expected tcp_used={exp['tcp_used']}", rep)
@@ -755,11 +843,11 @@ def glue_cases(rng, st):
     qs = [{"serial": serial}] + ([None] if serial != 0 else [])
     for q in qs:
         def mk(mode, udp, tcpm, exp):
-            return dict(base, query=q, mode=mode, udp=udp, tcp=tcpm, expect=exp)
+            return dict(base, query=q, mode=mode, udp=udp, tcp=tcpm, expect=exp, mode_int=rng.chance(1, 3))
         yield mk(1, trunc, tcp, {"class": "valid", "what": "usetcp-then-tcp", "target": tgt, "tcp_used": True})
         yield mk(2, trunc, tcp, {"class": "must-raise", "what": "usetcp-only", "err": "UseTCP"})
         yield mk(rng.choice([1, 2]), full, tcp, {"class": "valid", "what": "udp-complete", "target": tgt, "tcp_used": False})
-        yield mk(0, trunc, tcp, {"class": "valid", "what": "never-udp", "target": tgt, "tcp_used": True})
+        yield mk(0, trunc, tcp, {"class": "valid", "what": "never-udp", "target": tgt, "tcp_used": True, "udp_used": False})
         bad = [dict(m) for m in trunc]
         bad[0]["rcode"] = 5
         yield mk(1, bad, tcp, {"class": "must-raise", "what": "udp-refused-no-retry", "err": "TransferError"})
@@ -771,7 +859,7 @@ def glue_cases(rng, st):
     ax = axfr_stream(rng, st["chain"][-1])
     axm = to_msgs(rng, ax, rand_sizes(rng, len(ax), empties=False), "AXFR", o)
     yield dict(base, query={"serial": None}, mode=rng.choice([0, 1, 2]), udp=trunc, tcp=axm,
-               expect={"class": "valid", "what": "axfr-query", "target": tgt, "tcp_used": True})
+               expect={"class": "valid", "what": "axfr-query", "target": tgt, "tcp_used": True, "udp_used": False})
     yield dict(base, query={"serial": serial or 1, "qtype": "SOA"}, mode=1, udp=trunc, tcp=tcp,
                expect={"class": "must-raise", "what": "query-not-xfr", "err": "ValueError"})
     yield dict(base, query={"serial": serial or 1, "strip": True}, mode=1, udp=trunc, tcp=tcp,
@@ -794,6 +882,18 @@ def eval_mkq(ctx: Ctx, c: dict):
     except BaseException as e:  # noqa: BLE001
         q, impl = None, "err:Foreign:" + type(e).__name__
     ks = w.zone_keys(zone)
+    if q is not None:
+        # the other options of make_query shape the query only: same type and serial, and they arrive in the query
+        kr = dns.tsigkeyring.from_text({"k.": "MTIzNDU2Nzg5MDEyMzQ1Ng=="})
+        try:
+            q2, s2 = dns.xfr.make_query(zone, ser, 0, 0x8000, 1232, 4096, None, kr, dns.name.from_text("k."))
+            x2 = dns.xfr.extract_serial_from_query(q2)
+            if (q2.question[0].rdtype, s2, x2) != (q.question[0].rdtype, s, s) or q2.edns != 0 or q2.payload != 1232 \
+                    or q2.keyname != dns.name.from_text("k.") or not (q2.ednsflags & 0x8000) or q.edns != -1 or q.keyring is not None:
+                ctx.fail("C13/make_query/options", f"make_query(serial={ser}) with EDNS/TSIG options: type/serial changed or "
+                         f"options not carried (edns={q2.edns} payload={q2.payload} keyname={q2.keyname})", rep)
+        except Exception as e:  # noqa: BLE001
+            ctx.fail("C13/make_query/options", f"make_query(serial={ser}) with EDNS/TSIG options raised {type(e).__name__}", rep)
     senc = "none" if ser is None else (ser if isinstance(ser, int) and not isinstance(ser, bool) else "bad")
     ctx.corr(f"c13.mkq o={enc_labels(w.eff.labels)} N={w.enc_names()} Z={w.enc_keys(ks)} s={senc}", impl, c)
     ctx.count("mkq." + impl.split(" ")[0])
@@ -843,7 +943,21 @@ def eval_scmp(ctx: Ctx, c: dict):
     a, b = c["a"], c["b"]
     lt = dns.serial.Serial(a) < b
     gt = dns.serial.Serial(a) > b
-    ctx.corr(f"c13.scmp {a} {b}", f"{int(bool(lt))}{int(bool(gt))}", c)
+    sa = dns.serial.Serial(a)
+    eq, ne, le, ge = sa == b, sa != b, sa <= b, sa >= b
+    ctx.corr(f"c13.scmp {a} {b}", "".join(str(int(bool(x))) for x in (lt, gt, eq, ne, le, ge)), c)
+    rep = {"kind": "scmp", "case": c}
+    sb = dns.serial.Serial(b)
+    if bool(eq) == bool(ne) or bool(eq) != ((a - b) % 2**32 == 0):
+        ctx.fail("C13/serial/eq-ne", f"Serial({a}) vs {b}: eq={eq} ne={ne}", rep)
+    if bool(le) != (bool(lt) or bool(eq)) or bool(ge) != (bool(gt) or bool(eq)):
+        ctx.fail("C13/serial/le-ge", f"Serial({a}) vs {b}: lt={lt} le={le} gt={gt} ge={ge} eq={eq}", rep)
+    if (b == sa) != bool(eq) or (sa == sb) != bool(eq) or (sb == sa) != bool(eq) or (sa < sb) != bool(lt) or (sb > sa) != bool(lt):
+        ctx.fail("C13/serial/symmetry", f"Serial({a}) vs Serial({b}): == / < / > disagree between int and Serial operands or sides", rep)
+    if bool(eq) and hash(sa) != hash(sb):
+        ctx.fail("C13/serial/hash", f"Serial({a}) == Serial({b}) but the hashes differ", rep)
+    if bool(eq) and len({sa, sb}) != 1:
+        ctx.fail("C13/serial/hash", f"Serial({a}) == Serial({b}) but a set holds both", rep)
     # RFC 1982 3.2, independently
     i1, i2 = a % 2**32, b % 2**32
     rlt = (i1 < i2 and i2 - i1 < 2**31) or (i1 > i2 and i1 - i2 > 2**31)
@@ -930,7 +1044,7 @@ def mutate(rng, v: Version, names, nchanges):
                 t = "A"
             k = (n.lower(), t)
             v.spell.setdefault(n.lower(), n)
-            ttl, rds = v.sets.get(k, (rng.choice([60, 300, 3600]), []))
+            ttl, rds = v.sets.get(k, (rng.choice([60, 300, 3600, 300, 0, 2**31 - 1]), []))
             rd = gen_rdata(rng, v.o, t)
             if t in ("CNAME", "NSEC"):
                 rds = [rd]  # singleton types
@@ -957,7 +1071,7 @@ def mutate(rng, v: Version, names, nchanges):
         elif m == 5:
             k = rng.choice(keys)
             ttl, rds = v.sets[k]
-            v.sets[k] = (rng.choice([60, 300, 3600, 86400]), rds)
+            v.sets[k] = (rng.choice([60, 300, 3600, 86400, 0, 2**31 - 1]), rds)
         else:
             n = rng.choice(keys)[0]
             for k in [k for k in keys if k[0] == n]:
@@ -1174,6 +1288,9 @@ def valid_cases(rng, st, nrand, exhaustive=False):
         via = rng.choice(["wire", "wire", "wire", "sock"])
         if rdtype == "AXFR" and case["req"]["serial"] is not None:
             via = "wire"  # (make_query turns a serial into an IXFR query; Inbound is constructed directly here)
+        if via == "sock" and rng.chance(1, 2):
+            via = "async"  # the asyncio twin of the loop
+        case = dict(case, ctor=rng.choice(["pos", "kw", "int", "default"]))
         yield with_msgs(case, to_msgs(rng, recs, sizes, rdtype, st["o"], group=(rdtype == "AXFR" and rng.chance(1, 2))), exp, via)
 
 
@@ -1207,6 +1324,7 @@ def fault_cases(rng, st, every=True):
         exp = {"class": cls, "shape": shape, "fault": fault}
         if err:
             exp["err"] = err
+        c["ctor"] = rng.choice(["pos", "pos", "kw", "int"])
         return with_msgs(c, msgs, exp, "wire")
 
     positions = range(L) if every else sorted({rng.below(L) for _ in range(4)})
@@ -1330,6 +1448,29 @@ def fault_cases(rng, st, every=True):
     else:
         yield emit(recs, "init-ixfr-without-serial", "must-raise", "ValueError", req={"serial": None})
     yield emit(recs, "init-bad-rdtype", "must-raise", "ValueError", req={"rdtype": rng.choice(["SOA", "ANY", "A"])})
+    yield dict(emit(recs, "init-rdtype-as-text", "must-raise", "ValueError"), ctor="str")  # "AXFR" / "IXFR" as str
+    # a foreign BaseException raised inside process_message by a hostile rrset object: it must come out, the zone
+    # must be as before and nothing may stay open (hand-built messages only)
+    for _ in range(2):
+        sizes = [L] if udp else rand_sizes(rng, L, empties=False)
+        cb = emit(recs, "boom", "boom", sizes=sizes)
+        pos = rng.below(L)
+        acc = 0
+        for mi, md in enumerate(cb["msgs"]):
+            if pos < acc + len(md["an"]):
+                yield dict(cb, via="direct", boom=[mi, pos - acc], ctor="pos")
+                break
+            acc += len(md["an"])
+    # the caller keeps feeding after process_message returned True
+    if shape in ("axfr", "ixfr", "axfr-style", "udp-ixfr") and not udp:
+        base_msgs = to_msgs(rng, recs, rand_sizes(rng, L, empties=False), rdtype, o)
+        for extra, err in (([{"rcode": 0, "q": None, "an": []}], None),
+                           ([{"rcode": 0, "q": None, "an": []}, {"rcode": 0, "q": None, "an": [[recs[-1]]]}], "FormError")):
+            ce = with_msgs(dict(case, ctor="pos"), base_msgs + extra,
+                           {"class": "after-done", "shape": shape, "fault": "fed-past-the-end", "target": st["target"]}, "wire")
+            if err:
+                ce["expect"]["err"] = err
+            yield dict(ce, end="all")
     if rdtype == "IXFR":
         base = case["req"]["serial"]
         tgt = st["chain"][-1].serial
@@ -1365,18 +1506,51 @@ def gen_scmp(rng):
     b = (a + d) % 2**32 if rng.chance(3, 4) else rng.below(2**32)
     if rng.chance(1, 10):
         b += 2**32  # an int beyond 32 bits is reduced by Serial()
+    if rng.chance(1, 10):
+        a += 2**32
     return {"kind": "scmp", "a": a, "b": b}
 
 
 def case_key(c):
     if c.get("kind", "xfr") != "xfr":
         return json.dumps(c, sort_keys=True, default=str)
-    return (c["zk"], c["rel"], c["origin"], c["req"]["rdtype"], c["req"]["serial"], c["req"]["udp"], c.get("via"), c.get("end"),
+    return (c["zk"], c["rel"], c["origin"], c["req"]["rdtype"], c["req"]["serial"], c["req"]["udp"], c.get("via"), c.get("end"), c.get("ctor"), str(c.get("boom")),
             json.dumps(c["msgs"]), len(c["v0"]))
+
+
+def big_cases(rng):
+    """sizes beyond the comfortable: an AXFR of ~1700 names whose main message is longer than 0x8000 octets (TCP
+    frame length with the top bit set, compression pointers up to 0x3FFF and names beyond them), into a B-tree /
+    versioned zone; then an IXFR that deletes some hundred of those names again"""
+    o = "big.example."
+    n = rng.range(1650, 1750)
+    soa0 = [o, 300, "SOA", soa_text(o, 2**31 - 2)]
+    soa1 = [o, 300, "SOA", soa_text(o, 2**31 + 3)]
+    body = [[o, 300, "NS", f"ns1.{o}"]] + [[f"n{i:04d}.{o}", 300, "A", f"192.0.2.{i % 250 + 1}"] for i in range(n)]
+    zk = rng.choice(["btree", "btree", "versioned"])
+    rel = rng.chance(1, 2)
+    recs = [soa0] + body + [soa0]
+    sizes = [1, len(recs) - 40, 39]
+    case = {"kind": "xfr", "zk": zk, "rel": rel, "origin": o, "v0": [], "req": {"rdtype": "AXFR", "serial": None, "udp": False}}
+    for via in ("sock", "async"):
+        yield with_msgs(case, to_msgs(rng, recs, sizes, "AXFR", o, question="first"),
+                        {"class": "valid", "shape": "axfr", "fault": "-", "target": [soa0] + body}, via)
+    gone = [r for r in body[1:] if rng.chance(1, 5)]
+    new = [[f"m{i:03d}.{o}", 60, "AAAA", f"2001:db8::{i + 1}"] for i in range(rng.range(20, 60))]
+    stream = [soa1, soa0] + gone + [soa1] + new + [soa1]
+    case2 = {"kind": "xfr", "zk": zk, "rel": rel, "origin": o, "v0": [soa0] + body,
+             "req": {"rdtype": "IXFR", "serial": 2**31 - 2, "udp": False}}
+    target = [soa1] + [r for r in body if r not in gone] + new
+    yield with_msgs(case2, to_msgs(rng, stream, rand_sizes(rng, len(stream), empties=False), "IXFR", o),
+                    {"class": "valid", "shape": "ixfr", "fault": "-", "target": target}, "wire")
 
 
 def generate(ctx: Ctx, scale: float, rng, budget_s: float):
     n = lambda q: max(1, int(q * scale))
+    for c in big_cases(rng):
+        ctx.case(case_key(c))
+        eval_case(ctx, c)
+        ctx.count("big")
     for _ in range(n(300)):
         c = gen_scmp(rng)
         ctx.case(case_key(c), sample=c)
@@ -1421,7 +1595,11 @@ def generate(ctx: Ctx, scale: float, rng, budget_s: float):
                 c2 = dict(c, via="direct")
                 ctx.case(case_key(c2))
                 eval_case(ctx, c2)
-            if c.get("via") != "sock" and rng.chance(1, 2):
+            if c["req"]["udp"] and rng.chance(1, 2):
+                c5 = dict(c, via="async")
+                ctx.case(case_key(c5))
+                eval_case(ctx, c5)
+            if c.get("via") not in ("sock", "async") and rng.chance(1, 2):
                 c3 = dict(c, end=rng.choice(["quiet", "exc"]))
                 ctx.case(case_key(c3))
                 eval_case(ctx, c3)
@@ -1435,13 +1613,20 @@ def generate(ctx: Ctx, scale: float, rng, budget_s: float):
             # Inbound driven directly as a context manager: the caller stops feeding and leaves the block
             # normally ("quiet") or by an exception of its own ("exc") — at every cut point of the stream
             # (truncate@k), and for a sample of the other faults
+            if (c["req"] == st["case"]["req"] and not (c["req"]["rdtype"] == "AXFR" and c["req"]["serial"] is not None)
+                    and not c.get("boom") and not c.get("end") and c.get("ctor") != "str" and rng.chance(1, 10)):
+                c4 = dict(c, via=rng.choice(["sock", "async"]))
+                ctx.case(case_key(c4))
+                eval_case(ctx, c4)
             fk = c["expect"].get("fault", "")
+            if c.get("boom") or c.get("end"):
+                continue
             if fk.startswith("truncate") or rng.chance(1, 6):
                 for end in (("quiet", "exc") if fk.startswith("truncate") else (rng.choice(["quiet", "exc"]),)):
                     c3 = dict(c, end=end)
                     ctx.case(case_key(c3))
                     eval_case(ctx, c3)
-        if st["shape"] == "axfr" and not any(r[0] in {x[0] for x in OOZ} for r in st["recs"]):
+        if st["shape"] == "axfr" and not any(r[0].lower() in {x[0].lower() for x in OOZ} for r in st["recs"]):
             for c in legacy_cases(rng, st):
                 ctx.case(case_key(c))
                 eval_case(ctx, c)
